@@ -62,9 +62,36 @@ class IS2(IS):
                 self.iter_windows.pop()
         return IS.stmt(self, st)
 
+    def index_array(self, base, e):
+        # an index that is a slice OBJECT (`rows = slice(a, b)`; `X[rows]`, `X[slice(a, b), j]`) selects a window of the axis like
+        # the slice syntax `X[a:b]`; it is not an element index (the axis stays)
+        items = list(e.slice.elts) if isinstance(e.slice, ast.Tuple) else [e.slice]
+        new, hit = [], False
+        for it in items:
+            t = self.env.get(it.id) if isinstance(it, ast.Name) else None
+            c = t[1] if isinstance(t, tuple) and len(t) == 2 and t[0] == "sliceobj" else \
+                it if isinstance(it, ast.Call) and isinstance(it.func, ast.Name) and it.func.id == "slice" and not it.keywords else None
+            if c is not None and 1 <= len(c.args) <= 2:
+                none = lambda x: isinstance(x, ast.Constant) and x.value is None
+                lo, hi = (None, c.args[0]) if len(c.args) == 1 else (c.args[0], c.args[1])
+                new.append(ast.copy_location(ast.Slice(lower=None if lo is None or none(lo) else lo, upper=None if none(hi) else hi, step=None), it))
+                hit = True
+            else:
+                new.append(it)
+        if hit:
+            e2 = ast.copy_location(ast.Subscript(value=e.value, slice=ast.Tuple(elts=new, ctx=ast.Load()) if isinstance(e.slice, ast.Tuple) else new[0],
+                                                 ctx=e.ctx), e)
+            ast.fix_missing_locations(e2)
+            return IS.index_array(self, base, e2)
+        return IS.index_array(self, base, e)
+
     def ev_Call(self, e):
         f = e.func
         name = f.attr if isinstance(f, ast.Attribute) else f.id if isinstance(f, ast.Name) else ""
+        if name == "slice" and isinstance(f, ast.Name) and 1 <= len(e.args) <= 3 and not e.keywords:
+            for a in e.args:
+                self.ev(a)
+            return ("sliceobj", e)
         if name == "append" and isinstance(f, ast.Attribute) and len(e.args) == 1 and len(getattr(self, "iter_windows", [])) == 1 \
                 and self.iter_windows[0] is not None:
             # a list that starts empty and gets one entry per element of a typed array is a table over that array's index range
@@ -109,20 +136,26 @@ def is_arr_(t):
     return I.is_arr(t)
 
 
-def ctor_attrs(chk, rel, cls, env, ctx=None):
-    """attribute tags established by cls.__init__ (same-class helper methods are inlined)"""
+def ctor_attrs(chk, rel, cls, env, ctx=None, methods=None):
+    """attribute tags established by cls.__init__ (same-class helper methods are inlined); `methods` replaces definitions of the
+    class by private copies (a path of the class under an assumption)"""
     attrs = {}
-    fn = chk.mod(rel).func(f"{cls}.__init__")
+    table = dict(I.class_methods(chk, rel, cls))
+    table.update(methods or {})
+    fn = table.get("__init__") or chk.mod(rel).func(f"{cls}.__init__")
     chk.functions.add(f"{rel}:{cls}.__init__")
-    a = IS2(chk, rel, f"{cls}.__init__", fn, env, ctx or Ctx(dist_dims=None), attrs)
-    a.methods = I.class_methods(chk, rel, cls)
+    a = IS2(chk if not methods else _Mute(), rel, f"{cls}.__init__", fn, env, ctx or Ctx(dist_dims=None), attrs)
+    a.methods = table
     a.run()
     return attrs, a
 
 
-def summary_of(chk, rel, cls, mname, attrs, ctx, env_extra=None):
+def summary_of(chk, rel, cls, mname, attrs, ctx, env_extra=None, fn=None):
     """required index tags of the parameters of a per-slice method (from its own table look-ups)"""
-    fn = chk.mod(rel).func(f"{cls}.{mname}")
+    mute = fn is not None
+    fn = fn or chk.mod(rel).func(f"{cls}.{mname}")
+    if mute:
+        chk = _Mute()
     env = {a.arg: ("param", a.arg) for a in fn.args.args if a.arg != "self"}
     env.update(env_extra or {})
     a = IS2(chk, rel, f"{cls}.{mname}", fn, env, ctx, attrs)
@@ -147,6 +180,286 @@ def run_method(chk, rel, cls, mname, env, ctx, attrs, summaries=None):
         a.methods = {k: v for k, v in I.class_methods(chk, rel, cls).items() if k not in (summaries or {})}
     a.run()
     return a
+
+
+# ------------------------------------------------------------------ equivalent library spellings
+_NP_BINOPS = {"mod": ast.Mod, "remainder": ast.Mod, "add": ast.Add, "subtract": ast.Sub, "multiply": ast.Mult, "divide": ast.Div,
+              "true_divide": ast.Div, "floor_divide": ast.FloorDiv, "power": ast.Pow}
+
+
+def library_forms(e):
+    """equivalent library spellings in one form: np.mod(a, b) / np.remainder(a, b) is `a % b` (element-wise, sign of the divisor, like
+    Python's %), np.add / subtract / multiply / divide are the operators, np.negative(a) is -a.  (np.fmod is NOT `%`: left as it is.)"""
+    class N(ast.NodeTransformer):
+        def visit_Call(self, node):
+            self.generic_visit(node)
+            f = node.func
+            if isinstance(f, ast.Attribute) and isinstance(f.value, ast.Name) and f.value.id in ("np", "numpy") and not node.keywords:
+                if f.attr in _NP_BINOPS and len(node.args) == 2:
+                    return ast.copy_location(ast.BinOp(left=node.args[0], op=_NP_BINOPS[f.attr](), right=node.args[1]), node)
+                if f.attr == "negative" and len(node.args) == 1:
+                    return ast.copy_location(ast.UnaryOp(op=ast.USub(), operand=node.args[0]), node)
+            return node
+    return ast.fix_missing_locations(N().visit(e))
+
+
+# ------------------------------------------------------------------ small data structures written back as plain attributes
+_MUTATORS = {"append", "extend", "insert", "pop", "remove", "sort", "reverse", "clear", "update", "setdefault", "popitem", "fill", "resize", "put"}
+
+
+def _self_attr(e):
+    return e.attr if isinstance(e, ast.Attribute) and isinstance(e.value, ast.Name) and e.value.id == "self" else None
+
+
+def _is_ref(e):
+    """an expression that denotes an existing object of the instance (aliasing it is exact): self.A"""
+    return _self_attr(e) is not None
+
+
+def _zip_parts(v):
+    """[R1, R2, ...] when v is list(zip(R1, R2, ...)) / tuple(zip(...)) else None"""
+    if isinstance(v, ast.Call) and isinstance(v.func, ast.Name) and v.func.id in ("list", "tuple") and len(v.args) == 1 and not v.keywords:
+        z = v.args[0]
+        if isinstance(z, ast.Call) and isinstance(z.func, ast.Name) and z.func.id == "zip" and z.args and not z.keywords:
+            return list(z.args)
+    return None
+
+
+def normalise_structures(chk, rel):
+    """In the classes of module `rel`, an attribute that is a small fixed data structure built in one place - a dict with literal
+    keys, a tuple / list literal, a record `T(a=..., b=...)`, or list(zip(self.A, self.B)) - and only used through its fields (or, for
+    structures that merely group existing attributes, used anywhere) is written back as the plain attributes / expressions it groups:
+    `self._tab['shifts'][r, c]` -> `self._shifts[r, c]`, `for s, c in self._stencil` -> `for s, c in list(zip(self._shifts,
+    self._coeffs))`, `a, b = (x, y)` -> `a = x; b = y`.  The rules then see the same def-use facts whatever the grouping.  Structures
+    that are modified in place (pop, sort, append, element stores, augmented assignment) are left alone: the rules that meet them say so.
+    Done in place on the check's private syntax tree, once."""
+    from ..core import clone
+    mod = chk.mod(rel)
+    if mod.__dict__.get("_structures_unfolded"):
+        return
+    mod.__dict__["_structures_unfolded"] = True
+    for cls in [n for n in mod.tree.body if isinstance(n, ast.ClassDef)]:
+        try:
+            changed = _unfold_class(cls, clone)
+        except Exception:          # noqa: BLE001 - a normalisation must never stop a check: the rules then see the code as written
+            changed = True
+        if changed:
+            ast.fix_missing_locations(cls)
+            for n in ast.walk(cls):
+                for ch in ast.iter_child_nodes(n):
+                    ch._parent = n
+
+
+def _unfold_class(cls, clone):
+    methods = [st for st in cls.body if isinstance(st, ast.FunctionDef)]
+    plain, spoiled, loads = {}, set(), {}
+    used_names = set()
+    for m in methods:
+        for n in ast.walk(m):
+            a = _self_attr(n)
+            if a is not None:
+                used_names.add(a)
+            if isinstance(n, ast.Assign):
+                for t in n.targets:
+                    for x in ([t] if not isinstance(t, (ast.Tuple, ast.List)) else list(t.elts)):
+                        if _self_attr(x) is not None:
+                            if len(n.targets) == 1 and x is t:
+                                plain.setdefault(_self_attr(x), []).append((m, n))
+                            else:
+                                spoiled.add(_self_attr(x))
+                        elif isinstance(x, ast.Subscript) and _self_attr(x.value) is not None:
+                            spoiled.add(_self_attr(x.value))          # element store into the structure itself
+            elif isinstance(n, (ast.AugAssign, ast.AnnAssign)):
+                t = n.target
+                if _self_attr(t) is not None:
+                    spoiled.add(_self_attr(t))
+                elif isinstance(t, ast.Subscript) and _self_attr(t.value) is not None:
+                    spoiled.add(_self_attr(t.value))
+            elif isinstance(n, (ast.For, ast.With, ast.Delete)):
+                tg = [n.target] if isinstance(n, ast.For) else ([i.optional_vars for i in n.items if i.optional_vars is not None] if isinstance(n, ast.With) else n.targets)
+                for t in tg:
+                    for x in ast.walk(t):
+                        if _self_attr(x) is not None:
+                            spoiled.add(_self_attr(x))
+            elif isinstance(n, ast.Call) and isinstance(n.func, ast.Attribute) and n.func.attr in _MUTATORS and _self_attr(n.func.value) is not None:
+                spoiled.add(_self_attr(n.func.value))
+    # contexts of the loads
+    for m in methods:
+        for n in ast.walk(m):
+            for ch in ast.iter_child_nodes(n):
+                a = _self_attr(ch)
+                if a is not None and isinstance(ch.ctx, ast.Load):
+                    kind = "other"
+                    if isinstance(n, ast.Subscript) and n.value is ch and isinstance(n.slice, ast.Constant):
+                        kind = ("key", n.slice.value)
+                    elif isinstance(n, ast.Attribute) and n.value is ch:
+                        kind = ("field", n.attr)
+                    loads.setdefault(a, []).append((kind, n, ch))
+    subst, promote = {}, {}
+
+    def stable_refs(v, m_, st_, snapshot):
+        """the attributes grouped by `v` are bound once, before the structure is built when that happens in the same method; for a
+        structure that copies element VALUES (zip) they are also never modified in place"""
+        for x in ast.walk(v):
+            a = _self_attr(x)
+            if a is None:
+                continue
+            d = plain.get(a, [])
+            if len(d) != 1 or (snapshot and a in spoiled):
+                return False
+            if d[0][0] is m_ and (d[0][1].lineno, d[0][1].col_offset) >= (st_.lineno, st_.col_offset):
+                return False
+        return True
+    for X, defs in plain.items():
+        if X in spoiled or len(defs) != 1 or not loads.get(X):
+            continue
+        v = defs[0][1].value
+        if not stable_refs(v, defs[0][0], defs[0][1], _zip_parts(v) is not None):
+            continue
+        kinds = [k for k, _, _ in loads[X]]
+        if isinstance(v, ast.Dict) and v.keys and all(isinstance(k, ast.Constant) and isinstance(k.value, (str, int)) for k in v.keys):
+            table = {k.value: val for k, val in zip(v.keys, v.values)}
+            if all(isinstance(k, tuple) and k[0] == "key" and k[1] in table for k in kinds):
+                promote[X] = ("key", table, defs[0])
+        elif isinstance(v, (ast.Tuple, ast.List)) and v.elts and not any(isinstance(e, ast.Starred) for e in v.elts):
+            if all(_is_ref(e) for e in v.elts):
+                subst[X] = v
+            elif all(isinstance(k, tuple) and k[0] == "key" and isinstance(k[1], int) and -len(v.elts) <= k[1] < len(v.elts) for k in kinds):
+                promote[X] = ("key", {i: e for i, e in enumerate(v.elts)} | {i - len(v.elts): e for i, e in enumerate(v.elts)}, defs[0])
+        elif _zip_parts(v) is not None and all(_is_ref(e) for e in _zip_parts(v)):
+            subst[X] = v
+        elif isinstance(v, ast.Call) and isinstance(v.func, (ast.Name, ast.Attribute)) and not v.args and v.keywords and all(k.arg for k in v.keywords) \
+                and (src(v.func).split(".")[-1][:1].isupper()):
+            table = {k.arg: k.value for k in v.keywords}
+            if all(isinstance(k, tuple) and k[0] == "field" and k[1] in table for k in kinds):
+                promote[X] = ("field", table, defs[0])
+    if not subst and not promote:
+        return _split_tuple_assigns(methods)
+    # names of the promoted fields
+    field_name = {}
+    for X, (how, table, (m, st)) in promote.items():
+        for key, val in table.items():
+            if _is_ref(val):
+                continue
+            if isinstance(key, int) and key < 0:
+                continue
+            base = str(key).lstrip("_")
+            nm = "_" + base if isinstance(key, str) and base.isidentifier() and ("_" + base) not in used_names else f"_{X.lstrip('_')}_{key}"
+            field_name[(X, key)] = nm
+            used_names.add(nm)
+        if how == "key" and any(isinstance(k, int) for k in table):
+            n_ = len([k for k in table if isinstance(k, int) and k >= 0])
+            for key in [k for k in table if isinstance(k, int) and k < 0]:
+                if (X, key + n_) in field_name:
+                    field_name[(X, key)] = field_name[(X, key + n_)]
+
+    def replacement(X, key):
+        how, table, _ = promote[X]
+        val = table[key]
+        if _is_ref(val):
+            return clone(val)
+        return ast.Attribute(value=ast.Name(id="self", ctx=ast.Load()), attr=field_name[(X, key)], ctx=ast.Load())
+
+    class T(ast.NodeTransformer):
+        def visit_Subscript(self, node):
+            a = _self_attr(node.value)
+            if a in promote and promote[a][0] == "key" and isinstance(node.slice, ast.Constant):
+                new = replacement(a, node.slice.value)
+                new.ctx = node.ctx if isinstance(new, ast.Attribute) else ast.Load()
+                return ast.copy_location(new, node)
+            self.generic_visit(node)
+            return _fold(node)
+
+        def visit_Attribute(self, node):
+            a = _self_attr(node.value) if isinstance(node.value, ast.Attribute) else None
+            if a in promote and promote[a][0] == "field":
+                new = replacement(a, node.attr)
+                new.ctx = node.ctx if isinstance(new, ast.Attribute) else ast.Load()
+                return ast.copy_location(new, node)
+            a = _self_attr(node)
+            if a in subst and isinstance(node.ctx, ast.Load):
+                return ast.copy_location(clone(subst[a]), node)
+            self.generic_visit(node)
+            return node
+
+        def visit_Call(self, node):
+            self.generic_visit(node)
+            return _fold(node)
+    for m in methods:
+        for blk_owner in list(ast.walk(m)):
+            for fld in ("body", "orelse", "finalbody"):
+                blk = getattr(blk_owner, fld, None)
+                if not (isinstance(blk, list) and blk and isinstance(blk[0], ast.stmt)):
+                    continue
+                out = []
+                for st in blk:
+                    hit = next((X for X, (_, _, (m_, st_)) in promote.items() if st_ is st), None)
+                    if hit is not None:
+                        how, table, _ = promote[hit]
+                        for key, val in table.items():
+                            if (hit, key) in field_name and not (isinstance(key, int) and key < 0):
+                                tgt = ast.Attribute(value=ast.Name(id="self", ctx=ast.Load()), attr=field_name[(hit, key)], ctx=ast.Store())
+                                out.append(ast.copy_location(ast.Assign(targets=[tgt], value=T().visit(val)), st))
+                        continue
+                    if any(st is st_ for X, v in subst.items() for (_, st_) in plain[X]):
+                        out.append(st)         # the grouping attribute itself stays (it is no longer read by the methods)
+                        continue
+                    out.append(st)
+                setattr(blk_owner, fld, out)
+        for st in list(ast.walk(m)):
+            if isinstance(st, ast.stmt) and not any(st is st_ for X in subst for (_, st_) in plain[X]):
+                for fld, val in list(ast.iter_fields(st)):
+                    if isinstance(val, ast.expr):
+                        setattr(st, fld, T().visit(val))
+                    elif isinstance(val, list) and val and isinstance(val[0], ast.expr):
+                        setattr(st, fld, [T().visit(x) for x in val])
+                    elif isinstance(val, list) and val and isinstance(val[0], (ast.keyword, ast.withitem)):
+                        for x in val:
+                            T().visit(x)
+    _split_tuple_assigns(methods)
+    return True
+
+
+def _fold(node):
+    """field of a literal structure / element and length of list(zip(...))"""
+    if isinstance(node, ast.Subscript) and isinstance(node.slice, ast.Constant):
+        v = node.value
+        if isinstance(v, ast.Dict):
+            for k, val in zip(v.keys, v.values):
+                if isinstance(k, ast.Constant) and k.value == node.slice.value:
+                    return ast.copy_location(val, node)
+        if isinstance(v, (ast.Tuple, ast.List)) and isinstance(node.slice.value, int) and -len(v.elts) <= node.slice.value < len(v.elts):
+            return ast.copy_location(v.elts[node.slice.value], node)
+    if isinstance(node, ast.Subscript) and not isinstance(node.slice, (ast.Slice, ast.Tuple)) and _zip_parts(node.value) is not None:
+        return ast.copy_location(ast.Tuple(elts=[ast.Subscript(value=p_, slice=node.slice, ctx=ast.Load()) for p_ in _zip_parts(node.value)], ctx=ast.Load()), node)
+    if isinstance(node, ast.Call) and isinstance(node.func, ast.Name) and node.func.id == "len" and len(node.args) == 1 and _zip_parts(node.args[0]) is not None:
+        return ast.copy_location(ast.Call(func=node.func, args=[_zip_parts(node.args[0])[0]], keywords=[]), node)
+    return node
+
+
+def _split_tuple_assigns(methods):
+    """`a, b = (x, y)` with plain names on the left -> `a = x; b = y` when no right-hand side reads a name bound on the left"""
+    changed = False
+    for m in methods:
+        for blk_owner in list(ast.walk(m)):
+            for fld in ("body", "orelse", "finalbody"):
+                blk = getattr(blk_owner, fld, None)
+                if not (isinstance(blk, list) and blk and isinstance(blk[0], ast.stmt)):
+                    continue
+                out = []
+                for st in blk:
+                    t = st.targets[0] if isinstance(st, ast.Assign) and len(st.targets) == 1 else None
+                    if isinstance(t, (ast.Tuple, ast.List)) and isinstance(st.value, (ast.Tuple, ast.List)) and len(t.elts) == len(st.value.elts) \
+                            and all(isinstance(x, ast.Name) for x in t.elts) and not any(isinstance(x, ast.Starred) for x in st.value.elts):
+                        names = {x.id for x in t.elts}
+                        if not any(isinstance(y, ast.Name) and y.id in names for v in st.value.elts for y in ast.walk(v)):
+                            for x, v in zip(t.elts, st.value.elts):
+                                out.append(ast.copy_location(ast.Assign(targets=[x], value=v), st))
+                            changed = True
+                            continue
+                    out.append(st)
+                setattr(blk_owner, fld, out)
+    return changed
 
 
 # ------------------------------------------------------------------ structured form of early exits
@@ -251,6 +564,159 @@ def resolve_method(chk, rel, cls, name):
     return f"{owner}.{name}", fn
 
 
+# ------------------------------------------------------------------ a method as its callers run it
+def _const_value(e):
+    """(True, python value) of a literal None / bool / number / string expression after folding, else (False, None)"""
+    if isinstance(e, ast.Constant):
+        return True, e.value
+    return False, None
+
+
+def _fold_tests(node):
+    """constant folding of boolean tests over literals: not c, c is (not) None, c == d, and / or with literal operands"""
+    class F(ast.NodeTransformer):
+        def visit_UnaryOp(self, n):
+            self.generic_visit(n)
+            ok, v = _const_value(n.operand)
+            if isinstance(n.op, ast.Not) and ok:
+                return ast.copy_location(ast.Constant(value=not v), n)
+            return n
+
+        def visit_Compare(self, n):
+            self.generic_visit(n)
+            if len(n.ops) == 1:
+                (ok1, a), (ok2, b) = _const_value(n.left), _const_value(n.comparators[0])
+                if ok1 and ok2:
+                    op = n.ops[0]
+                    res = {ast.Is: a is b, ast.IsNot: a is not b, ast.Eq: a == b, ast.NotEq: a != b}.get(type(op))
+                    if res is not None and (isinstance(op, (ast.Eq, ast.NotEq)) or a is None or b is None or isinstance(a, bool) or isinstance(b, bool)):
+                        return ast.copy_location(ast.Constant(value=bool(res)), n)
+            return n
+
+        def visit_BoolOp(self, n):
+            self.generic_visit(n)
+            vals = []
+            for v in n.values:
+                ok, c = _const_value(v)
+                if ok and isinstance(n.op, ast.And):
+                    if not c:
+                        return ast.copy_location(ast.Constant(value=False), n)
+                    continue
+                if ok and isinstance(n.op, ast.Or):
+                    if c:
+                        return ast.copy_location(ast.Constant(value=True), n)
+                    continue
+                vals.append(v)
+            if not vals:
+                return ast.copy_location(ast.Constant(value=isinstance(n.op, ast.And)), n)
+            return vals[0] if len(vals) == 1 else ast.copy_location(ast.BoolOp(op=n.op, values=vals), n)
+
+        def visit_IfExp(self, n):
+            self.generic_visit(n)
+            ok, c = _const_value(n.test)
+            return (n.body if c else n.orelse) if ok else n
+    return F().visit(node)
+
+
+def specialise(fn, actuals, name=None, params=None):
+    """private copy of `fn` as it runs when the parameters in `actuals` ({name: expression}) have these values: the names are
+    replaced, tests over literals folded and the arms that cannot run dropped.  `params` (ast.arguments) replaces the signature."""
+    from ..core import clone
+    new = clone(fn)
+    rebound = {n.id for n in ast.walk(new) if isinstance(n, ast.Name) and isinstance(n.ctx, ast.Store)}
+    actuals = {k: v for k, v in actuals.items() if k not in rebound}
+
+    class S(ast.NodeTransformer):
+        def visit_Name(self, n):
+            if isinstance(n.ctx, ast.Load) and n.id in actuals:
+                return ast.copy_location(clone(actuals[n.id]), n)
+            return n
+    new.body = [S().visit(st) for st in new.body]
+    new.body = [_fold_tests(st) for st in new.body]
+
+    def prune(stmts):
+        out = []
+        for st in stmts:
+            if isinstance(st, ast.If):
+                ok, c = _const_value(st.test)
+                if ok:
+                    out += prune(st.body if c else st.orelse)
+                    continue
+            for fld in ("body", "orelse", "finalbody"):
+                blk = getattr(st, fld, None)
+                if isinstance(blk, list) and blk and isinstance(blk[0], ast.stmt):
+                    pr = prune(blk)
+                    setattr(st, fld, pr or ([ast.copy_location(ast.Pass(), st)] if fld == "body" else []))
+            out.append(st)
+        return out
+    new.body = prune(new.body) or [ast.copy_location(ast.Pass(), new)]
+    if params is not None:
+        new.args = clone(params)
+    else:
+        keep = [a for a in new.args.args if a.arg not in actuals]
+        nd = len(new.args.defaults)
+        dflt = dict(zip([a.arg for a in new.args.args][len(new.args.args) - nd:], new.args.defaults)) if nd else {}
+        new.args.args = keep
+        new.args.defaults = [dflt[a.arg] for a in keep if a.arg in dflt]
+    if name:
+        new.name = name
+    ast.fix_missing_locations(new)
+    for n in ast.walk(new):
+        for ch in ast.iter_child_nodes(n):
+            ch._parent = n
+    new._parent = parent(fn)
+    if hasattr(fn, "_qual"):
+        new._qual = fn._qual if not name else ".".join(fn._qual.split(".")[:-1] + [name])
+    return new
+
+
+def entry_function(chk, rel, cls, m, receivers=()):
+    """the method `cls.m` as the program runs it (private copy, or the definition itself when nothing applies):
+    - a method whose whole body hands its arguments to a sibling (`return self.other(a, None, flag=True)`) is that sibling with the
+      parameters bound (merged code paths: X and X_keep merged into X(..., keep=False));
+    - optional parameters that no call in the driver passes have their default value."""
+    fn = chk.func(rel, f"{cls}.{m}")
+    table = method_table(chk, rel, cls)
+    for _ in range(3):
+        body = [st for st in fn.body if not (isinstance(st, ast.Expr) and isinstance(st.value, ast.Constant)) and not isinstance(st, ast.Pass)]
+        call = body[0].value if len(body) == 1 and isinstance(body[0], (ast.Expr, ast.Return)) and isinstance(body[0].value, ast.Call) else None
+        if call is None or not (isinstance(call.func, ast.Attribute) and isinstance(call.func.value, ast.Name) and call.func.value.id == "self"
+                                and call.func.attr in table and table[call.func.attr][1] is not fn and call.func.attr != m):
+            break
+        callee = table[call.func.attr][1]
+        formals = [a.arg for a in callee.args.args if a.arg != "self"]
+        b = agree.bind_call(call, formals)
+        if b is None:
+            break
+        nd = len(callee.args.defaults)
+        for a_, d_ in zip(callee.args.args[len(callee.args.args) - nd:], callee.args.defaults):
+            b.setdefault(a_.arg, d_)
+        if set(b) != set(formals):
+            break
+        own = {a.arg for a in fn.args.args}
+        if not all(isinstance(v, ast.Constant) or (isinstance(v, ast.Name) and v.id in own) for v in b.values()):
+            break
+        chk.functions.add(f"{rel}:{cls}.{call.func.attr}")
+        fn = specialise(callee, {k: v for k, v in b.items() if not (isinstance(v, ast.Name) and v.id == k)}, name=m, params=fn.args)
+    # defaults of the optional parameters the driver never passes
+    nd = len(fn.args.defaults)
+    if nd and receivers:
+        opt = dict(zip([a.arg for a in fn.args.args][len(fn.args.args) - nd:], fn.args.defaults))
+        formals = [a.arg for a in fn.args.args if a.arg != "self"]
+        try:
+            drv = chk.func(U.DRIVER, "main")
+        except AnalysisError:
+            drv = None
+        calls = [c for c in ast.walk(drv) if isinstance(c, ast.Call) and isinstance(c.func, ast.Attribute) and c.func.attr == m
+                 and isinstance(c.func.value, ast.Name) and c.func.value.id in receivers] if drv is not None else []
+        binds = [agree.bind_call(c, formals) for c in calls]
+        if calls and all(b is not None for b in binds):
+            unused = {k: v for k, v in opt.items() if isinstance(v, ast.Constant) and not any(k in b for b in binds)}
+            if unused:
+                fn = specialise(fn, unused)
+    return fn
+
+
 # ------------------------------------------------------------------ operators
 def parallel_gradient(chk):
     """ParallelGradient: tables built in __init__, looked up in parallel_gradient(phi_r, i, der)"""
@@ -276,9 +742,26 @@ def flux_surface(chk):
     # which index space each parameter of step must be in follows from the tables it subscripts; whether the callers hand over values of
     # these spaces is rule C-slice-param at each call (a consistent change of convention on both sides holds)
     typed = all(isinstance(req.get(p_), tuple) and req[p_][0] in ("lidx", "gidx") for p_ in ("cIdx", "rIdx"))
+    split_note = None
+    if not typed:
+        # `if <flag>: rIdx = 0` in step, with the constructor keeping fewer table rows under the same flag: the two paths of the class
+        # are typed separately - without the flag as usual; with it, one row serves every radius, which is right exactly when the rows
+        # are equal (rule F6-radial-table of the element-wise model)
+        sp_ = _flag_split(chk, env)
+        if sp_ is not None:
+            attrs2, summ2, flag, const_txt = sp_
+            req2 = summ2["req"]
+            if all(isinstance(req2.get(p_), tuple) and req2[p_][0] in ("lidx", "gidx") for p_ in ("cIdx", "rIdx")):
+                from .C10 import radial_tables
+                verdicts = [v for st_, v, _ in radial_tables(chk) if _same_flag(src(st_.test), flag)]
+                if verdicts and all(v is not None for v in verdicts):
+                    typed, attrs, summ, req = True, attrs2, summ2, req2
+                    split_note = (f" (on the path where `{flag}` does not hold; where it holds step uses {const_txt} for every slice and the "
+                                  "constructor keeps the rows of the first local radii only: whether these rows serve every radius is decided "
+                                  "by F6-radial-table)")
     chk.ob("C-table-roles", chk.func(U.ADV, "FluxSurfaceAdvection.step"), "step(f, cIdx, rIdx)", True if typed else None,
            f"the tables step looks up are { {k: tname(v) for k, v in attrs.items() if I.is_arr(v) and k != '_LagrangeVals'} }: cIdx must be "
-           f"{tname(req['cIdx'])}, rIdx {tname(req['rIdx'])}" if typed else
+           f"{tname(req['cIdx'])}, rIdx {tname(req['rIdx'])}" + (split_note or "") if typed else
            f"index requirements of step not established: { {k: tname(v) for k, v in req.items()} } "
            f"(tables: { {k: tname(v) for k, v in attrs.items() if I.is_arr(v)} })", file=U.ADV, func="FluxSurfaceAdvection.step")
     fn = chk.func(U.ADV, "FluxSurfaceAdvection.gridStep")
@@ -290,7 +773,64 @@ def flux_surface(chk):
     an = run_method(chk, U.ADV, "FluxSurfaceAdvection", "gridStep", {"grid": grid_param(o, 2)}, ctx, dict(attrs), {"step": summ})
     index_agreement(chk, an, fn, U.ADV, "FluxSurfaceAdvection.gridStep")
     local_extent_dependence(chk, an, fn, U.ADV, "FluxSurfaceAdvection.gridStep")
+    # the rows of the per-(r, v) tables are those of the slice's own radius also when the constructor keeps fewer rows than there are
+    # local radii (decided by the element-wise model of the tables, shared with C10; nothing is recorded when no such cut exists)
+    from .C10 import radial_tables
+    radial_tables(chk)
     return attrs, summ, o
+
+
+def _same_flag(a, b):
+    strip = lambda t: t[4:].strip("() ") if t.startswith("not ") else t
+    return strip(a) == strip(b)
+
+
+def _flag_split(chk, env):
+    """FluxSurfaceAdvection under the assumption that the flag guarding `if <flag>: <index parameter> = <literal>` in step is false:
+    (attribute tags, summary of step, flag text, text of the override) or None when step has no such override"""
+    from ..core import clone
+    stepfn = chk.func(U.ADV, "FluxSurfaceAdvection.step")
+    params = {a.arg for a in stepfn.args.args}
+    ov = [st for st in stepfn.body if isinstance(st, ast.If) and not st.orelse and len(st.body) == 1 and isinstance(st.body[0], ast.Assign)
+          and len(st.body[0].targets) == 1 and isinstance(st.body[0].targets[0], ast.Name) and st.body[0].targets[0].id in params
+          and isinstance(st.body[0].value, ast.Constant) and isinstance(st.body[0].value.value, int)]
+    if len(ov) != 1:
+        return None
+    flag = src(ov[0].test)
+
+    def assume_false(fn):
+        new = clone(fn)
+
+        def walk(stmts):
+            out = []
+            for st in stmts:
+                if isinstance(st, ast.If) and src(st.test) == flag:
+                    out += walk(st.orelse)
+                    continue
+                if isinstance(st, ast.If) and isinstance(st.test, ast.UnaryOp) and isinstance(st.test.op, ast.Not) and src(st.test.operand) == flag:
+                    out += walk(st.body)
+                    continue
+                for fld in ("body", "orelse", "finalbody"):
+                    blk = getattr(st, fld, None)
+                    if isinstance(blk, list) and blk and isinstance(blk[0], ast.stmt):
+                        setattr(st, fld, walk(blk) or ([ast.copy_location(ast.Pass(), st)] if fld == "body" else []))
+                out.append(st)
+            return out
+        new.body = walk(new.body) or [ast.copy_location(ast.Pass(), new)]
+        for n in ast.walk(new):
+            for ch in ast.iter_child_nodes(n):
+                ch._parent = n
+        new._parent = parent(fn)
+        if hasattr(fn, "_qual"):
+            new._qual = fn._qual
+        return new
+    methods = {k: assume_false(v) for k, v in I.class_methods(chk, U.ADV, "FluxSurfaceAdvection").items()}
+    try:
+        attrs2, _ = ctor_attrs(chk, U.ADV, "FluxSurfaceAdvection", env, methods=methods)
+        summ2, _ = summary_of(chk, U.ADV, "FluxSurfaceAdvection", "step", dict(attrs2), Ctx(dist_dims={0, 3}), fn=methods["step"])
+    except AnalysisError:
+        return None
+    return attrs2, summ2, flag, f"`{src(ov[0].body[0])}`"
 
 
 def v_parallel(chk, pg_summ):
@@ -314,7 +854,7 @@ def v_parallel(chk, pg_summ):
     step_summ = {"params": ["f", "dt", "c", "r"], "req": {}}
     analyses = {}
     for m in ("gridStep", "gridStepKeepGradient"):
-        fn = chk.func(U.ADV, f"VParallelAdvection.{m}")
+        fn = vpar_entry(chk, m)
         env = {"grid": grid_param(o_grid, 2), "phi": grid_param(o_phi, 1), "parGradVals": pgv,
                "parGrad": ("obj", "ParallelGradient"), "dt": OTHER}
         a = IS2(chk, U.ADV, f"VParallelAdvection.{m}", fn, env, ctx, {}, {"step": step_summ})
@@ -328,6 +868,62 @@ def v_parallel(chk, pg_summ):
     gradient_out_param(chk)
     out_array_axes(chk, analyses["gridStep"])
     return pgv
+
+
+def vpar_entry(chk, m):
+    """VParallelAdvection.<m> as the driver runs it (delegations with bound arguments and unused optional parameters resolved)"""
+    cache = chk.__dict__.setdefault("_c05_vpar_entry", {})
+    if m not in cache:
+        table = method_table(chk, U.ADV, "VParallelAdvection")
+        try:
+            entries = driver_entries(chk, U.ADV, "VParallelAdvection", ("vParAdv",))
+        except AnalysisError:
+            entries = []
+        mine = [f for name, f in entries if name == m]
+        if m in table and len(mine) <= 1:
+            cache[m] = entry_function(chk, U.ADV, "VParallelAdvection", m, receivers=("vParAdv",))
+        else:
+            # the anchor vanished, or the driver runs it with different literal arguments (None / flags): the driver's calls on the
+            # operator object, each with its literal arguments bound, are the entry points; the one that computes the gradient plays
+            # gridStep, the one that only advects with the stored table plays gridStepKeepGradient
+            has_pg = lambda f: any(isinstance(c, ast.Call) and isinstance(c.func, ast.Attribute) and c.func.attr == "parallel_gradient" for c in ast.walk(f))
+            has_step = lambda f: any(isinstance(c, ast.Call) and isinstance(c.func, ast.Attribute) and c.func.attr == "step" and src(c.func.value) == "self"
+                                     for c in ast.walk(f))
+            want_pg = m == "gridStep"
+            cands = [f for name, f in entries if has_step(f) and has_pg(f) == want_pg and (name == m or m not in table)]
+            if len(cands) != 1:
+                raise AnalysisError(f"anchor vanished: {U.ADV}:VParallelAdvection.{m} (and no call of the driver on the operator object plays its role: "
+                                    f"{len(cands)} candidates)")
+            cache[m] = cands[0]
+    return cache[m]
+
+
+def driver_entries(chk, rel, cls, receivers):
+    """[(method name, the method with the literal arguments of one driver call bound)] for the distinct calls of fullSimulation.main on
+    the operator objects `receivers`"""
+    drv = chk.func(U.DRIVER, "main")
+    table = method_table(chk, rel, cls)
+    out, seen = [], set()
+    for c in ast.walk(drv):
+        if not (isinstance(c, ast.Call) and isinstance(c.func, ast.Attribute) and isinstance(c.func.value, ast.Name) and c.func.value.id in receivers
+                and c.func.attr in table):
+            continue
+        callee = table[c.func.attr][1]
+        formals = [a.arg for a in callee.args.args if a.arg != "self"]
+        b = agree.bind_call(c, formals)
+        if b is None:
+            continue
+        nd = len(callee.args.defaults)
+        for a_, d_ in zip(callee.args.args[len(callee.args.args) - nd:], callee.args.defaults):
+            b.setdefault(a_.arg, d_)
+        consts = {k: v for k, v in b.items() if isinstance(v, ast.Constant)}
+        key = (c.func.attr, tuple(sorted((k, repr(v.value)) for k, v in consts.items())))
+        if key in seen:
+            continue
+        seen.add(key)
+        chk.functions.add(f"{rel}:{cls}.{c.func.attr}")
+        out.append((c.func.attr, specialise(callee, consts) if consts else callee))
+    return out
 
 
 def out_array_axes(chk, a):
@@ -356,7 +952,7 @@ def out_array_axes(chk, a):
 def gradient_out_param(chk):
     """gridStep fills parGradVals[i] through parallel_gradient's output argument and gridStepKeepGradient reads the table later:
     the array handed in must end up holding the very value the function returns"""
-    gs, unstructured = structured(chk.func(U.ADV, "VParallelAdvection.gridStep"))
+    gs, unstructured = structured(vpar_entry(chk, "gridStep"))
     pgf = chk.func(U.ADV, "ParallelGradient.parallel_gradient")
     params = [a.arg for a in pgf.args.args if a.arg != "self"]
     calls = [c for c in ast.walk(gs) if isinstance(c, ast.Call) and isinstance(c.func, ast.Attribute) and c.func.attr == "parallel_gradient"]
@@ -881,7 +1477,25 @@ def poloidal(chk):
                    "the velocity is the slice's own v coordinate and the potential spline is the one of the slice's own z plane"
                    if okc else "; ".join(bad + problems), file=U.ADV, func=f"PoloidalAdvection.{m}")
         if nstep == 0:
-            chk.ob("C-coordinate-role", fn, f"self.step(...) in {m}", None, "no call of self.step found (idiom changed)", file=U.ADV,
+            # the stepping loop may live in the sibling grid-level method, called with the grid and time step this one received
+            # (gridStep = "potential splines of all planes first" + gridStep_SplinesUnchanged): the sibling's own obligation covers it
+            sibs = [x for x in ("gridStep", "gridStep_SplinesUnchanged") if x != m]
+            deleg = [c for c in ast.walk(fn) if isinstance(c, ast.Call) and isinstance(c.func, ast.Attribute) and src(c.func.value) == "self"
+                     and c.func.attr in sibs]
+            okd, whyd = None, "no call of self.step found (idiom changed)"
+            if len(deleg) == 1:
+                callee = chk.func(U.ADV, f"PoloidalAdvection.{deleg[0].func.attr}")
+                formals = [x.arg for x in callee.args.args if x.arg != "self"]
+                b = agree.bind_call(deleg[0], formals) or {}
+                own = {x.arg for x in fn.args.args}
+                same = set(b) == set(formals) and all(isinstance(v_, ast.Name) and v_.id == f_ and f_ in own for f_, v_ in b.items())
+                uncond = parent(parent(deleg[0])) is fn if isinstance(parent(deleg[0]), ast.Expr) else False
+                if same and uncond:
+                    okd, whyd = True, (f"the slices are advanced by `{deleg[0].func.attr}` on the same grid and time step (called unconditionally at "
+                                       "the end of the method); its own step call is typed")
+                else:
+                    whyd = f"`{src(deleg[0])}` does not hand this method's own grid / time step on unconditionally: cannot decide"
+            chk.ob("C-coordinate-role", deleg[0] if len(deleg) == 1 else fn, f"self.step(...) in {m}", okd, whyd, file=U.ADV,
                    func=f"PoloidalAdvection.{m}")
     # writer (gridStep) and reader (gridStep_SplinesUnchanged) of the cache use the same index space
     tags = {(m, I.tname(t) if t else "?") for m, lst in cache_tags.items() for _, t in lst}
@@ -1402,10 +2016,18 @@ def run(chk):
         "handed to a per-line routine is the one at the index that selects the line; the block of the gradient table handed to "
         "parallel_gradient has the axes of the potential slice, is written in every iteration over the radii (E2-gradient-row-written) "
         "and is what the callee returns; a value reduced (max/sum/any/norm ...) over the local block of a distributed dimension must "
-        "not decide a branch or be stored without a reduction over the communicator (C-local-extent).")
+        "not decide a branch or be stored without a reduction over the communicator (C-local-extent). Normalisations applied before the "
+        "rules: small fixed data structures (dict with literal keys, tuple/list literal, record, list(zip(...))) that group attributes are "
+        "written back as the attributes they group; a grid-level method is analysed as the driver runs it (pure delegation to a sibling "
+        "with bound arguments and unused optional parameters specialised, arms that cannot run dropped; when an anchor method vanished the "
+        "driver's calls on the operator object, with their literal arguments bound, are the entry points); slice objects select windows "
+        "like slice syntax. A constructor that keeps fewer table rows than local radii under a flag is typed path by path, the equality of "
+        "the omitted rows being decided by the element-wise model of the tables (F6-radial-table, shared with C10).")
     chk.assumptions += ["standard layouts and their distributed axes are those of the literal dictionaries in setups.py/fullSimulation.py",
                         "the same dimension is partitioned identically in every layout group that distributes it over the same process count"]
     chk.in_file(U.ADV)
+    normalise_structures(chk, U.ADV)
+    normalise_structures(chk, U.POISSON)
     pg_attrs, pg_summ = parallel_gradient(chk)
     flux_surface(chk)
     v_parallel(chk, pg_summ)
